@@ -28,7 +28,7 @@ def dependencies(ops):
     for i, op in enumerate(ops):
         refs = []
         for key in ('model', 'country', 'sector', 'market', 'supplier', 'business', 'obj', 'source', 'target',
-                    'treasury', 'ref'):
+                    'treasury', 'ref', 'gold'):
             v = op.get(key)
             if isinstance(v, str):
                 refs.append(v)
